@@ -79,6 +79,13 @@ pub fn parse_info(line: &str, q: u64) -> Value {
 }
 
 pub fn run_search(t: &Tables, board: &BoardState, table: &DrawTable, k: u64) -> RunOut {
+    run_search_allow(t, board, table, k, 1_000_000_000)
+}
+
+// the same with an explicit allowance (ms) handed to the search: the virtual clock still decides every `out_of_time` query,
+// so on code that consults nothing else the allowance is irrelevant; what the search REPORTS must not depend on it beyond
+// where it stops ("a larger allowance only extends")
+pub fn run_search_allow(t: &Tables, board: &BoardState, table: &DrawTable, k: u64, allowance_ms: u128) -> RunOut {
     let mut tbl = table.clone();
     let (tx, rx) = mpsc::channel();
     verif_hooks::install_clock(k);
@@ -87,7 +94,7 @@ pub fn run_search(t: &Tables, board: &BoardState, table: &DrawTable, k: u64) -> 
         // the allowance handed to the search is huge: expiry is decided by the virtual clock alone.  Code that looks at the
         // real clock directly (an early exit "when half of the slice is gone") then sees plenty of time and stays out of the
         // way instead of making the run depend on wall time (benign change B3-C08: false alarm sends-not-prefix)
-        get_best_move(board, &mut tbl, Instant::now(), 1_000_000_000, &tx);
+        get_best_move(board, &mut tbl, Instant::now(), allowance_ms, &tx);
     }));
     let log = verif_hooks::take_log();
     let queries = verif_hooks::remove_clock().unwrap_or(0);
@@ -264,6 +271,18 @@ pub fn expiry_enumeration(t: &Tables, cmds: &[String], dir: &str, nshards: usize
             let r = run_search(t, &sc.board, &sc.table, k);
             evs.push(json!({"ev": "srun", "k": k, "infos": r.infos, "sends": r.sends, "queries": r.queries,
                             "panic": r.panic, "rep_after": table_json(&r.table_after)}));
+        }
+        // the allowance itself as a parameter: the same search, same virtual expiry (far out), handed allowances on both sides of
+        // every round number a maintainer might key a heuristic on.  Judged by prefix-relatedness only (code that also looks at
+        // the real clock may stop earlier with a small allowance; it must not report anything else)
+        if c == 0 && tag != "deep" {
+            let k2 = budget.min(60000);
+            let reference = run_search(t, &sc.board, &sc.table, k2);
+            for &a in &[1u128, 9, 49, 99, 100, 101, 499, 1000, 4999, 30000, 600000] {
+                let r = run_search_allow(t, &sc.board, &sc.table, k2, a);
+                evs.push(json!({"ev": "sallow", "a": a as u64, "k": k2, "infos": r.infos, "sends": r.sends, "ref_infos": reference.infos,
+                                "ref_sends": reference.sends, "panic": r.panic, "rep_after": table_json(&r.table_after)}));
+            }
         }
         (pi, c, evs)
     });
@@ -513,6 +532,57 @@ fn repetition_cycle(t: &Tables, b0: &BoardState, rng: &mut StdRng) -> Option<Vec
                     if t.scratch_key(p4) == t.scratch_key(b0) && p4.board == b0.board {
                         // two and a half cycles: 3 plies = second occurrence on offer, 7 = third, 11 = fourth
                         return Some(vec![t1.clone(), t2.clone(), rev(&t1), rev(&t2), t1.clone(), t2.clone(), rev(&t1), rev(&t2), t1.clone(), t2.clone(), rev(&t1)]);
+                    }
+                }
+            }
+        }
+    }
+    None
+}
+
+// a perpetual check against the side that is AHEAD: X (to move in b0, clearly behind in the engine's own evaluation) checks,
+// Y's king steps aside, X checks back, Y's king steps back = b0.  After t1 t2 rt1 rt2 t1 t2 rt1 Y is in check with at most
+// two legal replies, one of them (rt2) into a position that has occurred twice.  The side that is ahead has nothing but the
+// repetition: a search that values the repetition differently for the side that is ahead (contempt) shows a final score
+// below zero here and nowhere else.
+fn perpetual_cycle(t: &Tables, b0: &BoardState, forced: bool) -> Option<Vec<String>> {
+    let rev = |s: &str| format!("{}{}", &s[2..4], &s[0..2]);
+    if get_evaluation(b0) > -200 {
+        return None;
+    }
+    let m1s = generate_moves(b0, MoveGenerationMode::AllMoves, &t.hasher);
+    for p1 in m1s.iter().filter(|m| is_check(m, m.to_move)) {
+        let t1 = printed_move(p1);
+        if t1.len() != 4 {
+            continue;
+        }
+        let m2s = generate_moves(p1, MoveGenerationMode::AllMoves, &t.hasher);
+        if m2s.is_empty() || m2s.len() > (if forced { 1 } else { 3 }) {
+            continue;
+        }
+        for p2 in &m2s {
+            let t2 = printed_move(p2);
+            if t2.len() != 4 || p2.board.iter().flatten().filter(|s| matches!(s, Square::Full(_))).count() != b0.board.iter().flatten().filter(|s| matches!(s, Square::Full(_))).count() {
+                continue;
+            }
+            let m3s = generate_moves(p2, MoveGenerationMode::AllMoves, &t.hasher);
+            if let Some(p3) = m3s.iter().find(|m| printed_move(m) == rev(&t1)) {
+                if !is_check(p3, p3.to_move) {
+                    continue;
+                }
+                let m4s = generate_moves(p3, MoveGenerationMode::AllMoves, &t.hasher);
+                // the side that is ahead has nothing but king steps that take nothing (no capture of the checker, no interposition)
+                let nmen = |b: &BoardState| b.board.iter().flatten().filter(|s| matches!(s, Square::Full(_))).count();
+                let king_step = |m: &BoardState| match m.last_move {
+                    Some((_, to)) => matches!(m.board[to.0][to.1], Square::Full(p) if p.kind == PieceKind::King) && nmen(m) == nmen(p3),
+                    None => false,
+                };
+                if m4s.len() > (if forced { 1 } else { 3 }) || !m4s.iter().all(|m| king_step(m)) {
+                    continue;
+                }
+                if let Some(p4) = m4s.iter().find(|m| printed_move(m) == rev(&t2)) {
+                    if t.scratch_key(p4) == t.scratch_key(b0) && p4.board == b0.board && get_evaluation(p3) > 200 {
+                        return Some(vec![t1.clone(), t2.clone(), rev(&t1), rev(&t2), t1.clone(), t2.clone(), rev(&t1)]);
                     }
                 }
             }
@@ -1138,6 +1208,34 @@ pub fn scenarios(t: &Tables, seeds: &[String], seed: u64, n_small: usize, n_mate
             if m2.iter().any(|m| m.board == b.board) {
                 out.push(json!({"tag": "fam", "cmd": format!("position fen {}", to_fen(&b2, 0, 1))}));
                 break;
+            }
+        }
+    }
+    // perpetual checks against the side that is ahead (a quarter of the repetition scenarios, at least two)
+    {
+        let pkits: [(&[u32], &[u32]); 6] = [(&[6, 5], &[6, 4, 4, 1, 1]), (&[6, 5], &[6, 4, 4, 3, 1, 1, 1]), (&[6, 5], &[6, 5, 4, 1, 1]), (&[6, 4], &[6, 4, 3, 2, 1, 1]),
+                                             (&[6, 5, 1], &[6, 5, 4, 2, 1, 1]), (&[6, 5], &[6, 4, 4, 4, 1, 1, 1])];
+        let want = if n_rep == 0 { 0 } else { std::cmp::max(4, n_rep / 4) };
+        let mut found = 0;
+        let mut tries = 0;
+        while found < want && tries < 3000000 {
+            tries += 1;
+            let (x, y) = pkits[rng.gen_range(0..pkits.len())];
+            // random_endgame picks colours and the side to move at random; X must be the one to move
+            if let Some(b0) = random_endgame(t, &mut rng, x, y) {
+                // every other one with forced replies all the way round
+                let forced = found % 2 == 1;
+                if let Some(cyc) = perpetual_cycle(t, &b0, forced) {
+                    out.push(json!({"tag": "rep", "cmd": format!("position fen {} moves {}", to_fen(&b0, 0, 1), cyc.join(" "))}));
+                    if forced {
+                        // the same geometry WITHOUT a history, the checking side to move: the perpetual comes back to the root position at
+                        // ply 4 (through the check extension inside iteration 3) - a second occurrence, which is not a draw; and with one
+                        // cycle of history, where it is the third
+                        out.push(json!({"tag": "small", "cmd": format!("position fen {}", to_fen(&b0, 0, 1))}));
+                        out.push(json!({"tag": "small", "cmd": format!("position fen {} moves {}", to_fen(&b0, 0, 1), cyc[..4].join(" "))}));
+                    }
+                    found += 1;
+                }
             }
         }
     }
